@@ -52,6 +52,10 @@ def productions(rng):
   for op in ('+=', '-=', '|='):
     prods.append(('aug-same-name-other-object', 'r.a %s o.a' % op))
     prods.append(('aug-same-name-other-object', 'z.a %s o.a' % op))
+  # the attribute holds a container and one of its items is updated in place (the attribute itself is only read);
+  # the last line puts a number back so that later statements find one
+  prods += [('item-aug', 'o.a = [1, 2]\no.a[0] += %d\no.a = 0' % k), ('item-aug', 'o.a = {"k": 1}\no.a["k"] -= %d\no.a = 0' % k),
+            ('item-aug', 'o.a = [1, 2]\nx = o.a[1]\no.a[1] = %d\no.a = 0' % k)]
   prods += [('mixed', 'x = o.a; o.a = x + %d' % k), ('mixed', 'o.a += o.b'), ('mixed', 'o.a += o.a'),
             ('lock-form', '_, _lock = o.a'), ('lock-form-block', '_, _lock = o.a\nwith _lock:\n  o.a = %d' % k)]
   return prods
@@ -66,7 +70,7 @@ def generate(seed, stratum, tier):
     # statements that touch one attribute only: a statement that updates one attribute while it reads
     # another (o.b += o.a against o.a += o.b) can deadlock by lock order; no listed property speaks
     # about that and it is not what is asked here
-    safe = [p for p in prods if p[0] not in ('lock-form', 'lock-form-block', 'aug-same-name-other-object') and 'while' not in p[1] and '.b' not in p[1]]
+    safe = [p for p in prods if p[0] not in ('lock-form', 'lock-form-block', 'aug-same-name-other-object', 'item-aug') and 'while' not in p[1] and '.b' not in p[1]]
     scripts = [[list(rng.choice(safe)) for _ in range(rng.randrange(1, 3))] for _ in range(2)]
     if rng.random() < 0.5:
       # the second thread works on another instance of the same class (same descriptor, other object)
